@@ -112,7 +112,9 @@ fn unsigned_arithmetic(cx: &mut Ctx, src: &sm::Src) {
     } else {
         cx.fail(rule, &format!("{}/saturating", rule), &src.rel, "a fill count is no longer computed with saturating_sub");
     }
-    if t.contains("num=num.checked_mul(10).and_then(|num|num.checked_add(iasi32)).ok_or((CFormatErrorType::IntTooBig,index))?;") {
+    // `acc = acc.checked_mul(10).and_then(|x| x.checked_add(digit as i32)).ok_or((IntTooBig, index))?` under any names
+    let checked = regex::Regex::new(r"(\w+)=(\w+)\.checked_mul\(10\)\.and_then\(\|(\w+)\|(\w+)\.checked_add\((\w+)asi32\)\)\.ok_or\(\(CFormatErrorType::IntTooBig,index\)\)\?;").unwrap().captures(&t.text).map_or(false, |c| c[1] == c[2] && c[3] == c[4]);
+    if checked {
         cx.ok(rule, "parse_quantity: checked i32 arithmetic, IntTooBig on overflow");
     } else {
         cx.fail(rule, &format!("{}/quantity", rule), &src.rel, "parse_quantity does not use checked arithmetic");
@@ -347,9 +349,24 @@ fn bytes_padding(cx: &mut Ctx, src: &sm::Src) {
     let cap = |re: &str| -> Vec<String> { regex::Regex::new(re).unwrap().captures_iter(&t).map(|c| c[1].to_string()).collect() };
     // the local cut to the precision
     let cut = cap(r"let(\w+)=matchself\.precision\{Some\(CFormatPrecision::Quantity\(CFormatQuantity::Amount\((?:\w+)\)\)\)=>&\w+\[\.\.(?:cmp::)?min\(\w+\.len\(\),\w+\)\],_=>\w+\}");
-    let measured = cap(r"\.saturating_sub\((\w+)\.len\(\)\)");
-    let mut written = cap(r"\.extend_from_slice\((\w+)\)");
-    written.extend(cap(r"_=>(\w+)\.to_vec\(\)"));
+    let toks = sm::tsx(&f.block).toks;
+    let mut measured: Vec<String> = vec![];
+    let mut written: Vec<String> = vec![];
+    for (i, tk) in toks.iter().enumerate() {
+        let at = |k: usize| toks.get(i + k).map(|s| s.as_str()).unwrap_or("");
+        // `.saturating_sub ( X . len ( ) )`
+        if tk == "saturating_sub" && at(1) == "(" && at(3) == "." && at(4) == "len" {
+            measured.push(at(2).to_string());
+        }
+        // `.extend_from_slice ( X )`
+        if tk == "extend_from_slice" && at(1) == "(" && at(3) == ")" {
+            written.push(at(2).to_string());
+        }
+        // `X . to_vec ( )`
+        if tk == "to_vec" && i >= 2 && toks[i - 1] == "." {
+            written.push(toks[i - 2].clone());
+        }
+    }
     let ok = cut.len() == 1 && measured.len() == 1 && written.len() == 3 && measured[0] == cut[0] && written.iter().all(|w| *w == cut[0]);
     if ok {
         cx.ok(rule, &format!("the precision-cut slice `{}` is measured for the padding and written in all three places", cut[0]));
